@@ -109,6 +109,31 @@ pub fn substitute(len: usize, sub: &str, r: u64, orig: &[u8]) -> Vec<u8> {
         (48, "offcurve") => bad::g1_off_curve().to_vec(),
         (48, "nonsub") => bad::g1_non_subgroup().to_vec(),
         (48, "other") => crate::refc::g1b(&crate::refc::rand_g1(&mut s)).to_vec(),
+        (48, "neg") => {
+            // the inverse of the same point (same x-coordinate, other sign bit); identity stays
+            let mut b = [0u8; 48];
+            b.copy_from_slice(orig);
+            let p: Option<bls12_381::G1Affine> = bls12_381::G1Affine::from_compressed(&b).into();
+            match p {
+                Some(p) => (-p).to_compressed().to_vec(),
+                None => orig.to_vec(),
+            }
+        }
+        (96, "neg") => {
+            let mut b = [0u8; 96];
+            b.copy_from_slice(orig);
+            let p: Option<bls12_381::G2Affine> = bls12_381::G2Affine::from_compressed(&b).into();
+            match p {
+                Some(p) => (-p).to_compressed().to_vec(),
+                None => orig.to_vec(),
+            }
+        }
+        (32, "neg") => {
+            match crate::refc::sc_opt(orig) {
+                Some(x) => crate::refc::scb(&(-x)).to_vec(),
+                None => orig.to_vec(),
+            }
+        }
         (96, "identity") => bad::g2_identity().to_vec(),
         (96, "offcurve") => bad::g2_off_curve().to_vec(),
         (96, "nonsub") => bad::g2_non_subgroup().to_vec(),
